@@ -3,11 +3,13 @@ use std::path::Path;
 
 pub mod c05;
 pub mod c21;
+pub mod c31;
 
 pub fn for_property(p: &str) -> Vec<Suite> {
     match p {
         "C05" => c05::suites(),
         "C21" => c21::suites(),
+        "C31" => c31::suites(),
         _ => vec![],
     }
 }
